@@ -133,10 +133,11 @@ const (
 	opRotate
 	opTruncWrite
 	opLongFragment
+	opRemoveCreate
 	nOps
 )
 
-var opNames = []string{"append2", "fragment", "complete-fragment", "long-line", "rotate", "truncate+write", "long-fragment"}
+var opNames = []string{"append2", "fragment", "complete-fragment", "long-line", "rotate", "truncate+write", "long-fragment", "remove+create"}
 
 type world struct {
 	fs       *memFS
@@ -219,6 +220,13 @@ func (w *world) apply(k opKind) {
 		w.fs.files[live] = []byte{}
 		w.send(fsnotify.Create, live)
 		w.pending = "" // an unterminated tail stays in the rotated file for ever
+	case opRemoveCreate:
+		// the live file is deleted and created anew (no rename)
+		delete(w.fs.files, live)
+		w.send(fsnotify.Remove, live)
+		w.fs.files[live] = []byte{}
+		w.send(fsnotify.Create, live)
+		w.pending = ""
 	case opTruncWrite:
 		w.fs.files[live] = []byte{}
 		w.pending = ""
@@ -453,7 +461,7 @@ func runC20(t *testing.T, run *mc.Run) int {
 			n++
 			hasRot := false
 			for _, o := range seq {
-				if o == opRotate || o == opTruncWrite {
+				if o == opRotate || o == opTruncWrite || o == opRemoveCreate {
 					hasRot = true
 				}
 			}
@@ -481,7 +489,7 @@ func runC20(t *testing.T, run *mc.Run) int {
 						switch o {
 						case opFragment, opLongFragment:
 							pend = true
-						case opAppend2, opComplete, opLong, opRotate, opTruncWrite:
+						case opAppend2, opComplete, opLong, opRotate, opTruncWrite, opRemoveCreate:
 							pend = false
 						}
 					}
@@ -511,7 +519,7 @@ func runC20(t *testing.T, run *mc.Run) int {
 		samples = samples[:8]
 	}
 	cov := mc.Coverage{Level: "model_checking", States: n, Transitions: n * depth, Traces: n, Evaluations: n, Distinct: withRotation, Exhaustive: complete, Samples: samples,
-		Rule:  fmt.Sprintf("the real LogDirReader loop in a synctest bubble over an in-memory file system: every sequence of <=%d operations over {append 2 lines, append a fragment, append a 5 kB fragment, complete it, append a 5 kB line, rotate (rename+create chain), truncate then write} from %d small initial directories, each change followed by its fsnotify events one at a time with quiescence in between; plus %d initial directories with 0..12 and sparse (10,100,999) rotated files x {start only, append, rotate+append}. Oracle: strings from Lines() == reference list. distinct_nontrivial = sequences containing a rotation or truncation", depth, len(small), len(big)),
+		Rule:  fmt.Sprintf("the real LogDirReader loop in a synctest bubble over an in-memory file system: every sequence of <=%d operations over {append 2 lines, append a fragment, append a 5 kB fragment, complete it, append a 5 kB line, rotate (rename+create chain), truncate then write, remove then create} from %d small initial directories, each change followed by its fsnotify events one at a time with quiescence in between; plus %d initial directories with 0..12 and sparse (10,100,999) rotated files x {start only, append, rotate+append}. Oracle: strings from Lines() == reference list. distinct_nontrivial = sequences containing a rotation or truncation", depth, len(small), len(big)),
 		Extra: map[string]any{"max_ops": depth, "initial_dirs": len(small) + len(big)}}
 	cov.Assumptions = []string{"testing/synctest semantics; in-memory file system with read-through handles; events delivered one at a time (the property's proviso)"}
 	return run.Finish(cov)
